@@ -119,6 +119,14 @@ def spelled(t, seed):
     """The same table written the way a JSON / YAML file delivers it: links and / or pairs as lists instead of tuples
     (a quarter each: tuples, list links, list pairs, both).  The spelling is not part of the topology."""
     how = ["tuples", "list-links", "list-pairs", "lists"][int(seed) % 4]
+    # ... and the reverse flag the way a computed table delivers it: a NumPy boolean (the result of a comparison) or 0 / 1
+    # (in a third of the tables each; the flag is a truth value, not an object)
+    flag = [None, "numpy", "int"][(int(seed) // 4) % 3]
+    if flag:
+        import numpy as np
+
+        cv = (lambda b: np.bool_(b)) if flag == "numpy" else (lambda b: int(b))
+        t = {f: {a: tuple(x if x is None else (x[0], x[1], cv(x[2])) for x in lr) for a, lr in d.items()} for f, d in t.items()}
     if how == "tuples":
         return t
     lk = (lambda x: x if x is None else list(x)) if how != "list-pairs" else (lambda x: x)
